@@ -172,6 +172,40 @@ def gen_profiles(rng, tier):
     return ps
 
 
+def expected_duration(series, k12, peak, peak_day, kernel, rb, two_pi_k):
+    """the peak duration from its definition (Cullin & Spitler 2011), written independently of the implementation:
+    the 48 h of the day before the peak day and the peak day itself (the year wraps for 1 January), scaled (q_i - avg)/peak * q_i;
+    its largest temperature response; the time at which a constant load (peak - avg) produces the same response.
+    Returns None when the window holds a load above the month's peak (previous month): the reference peak is then ambiguous."""
+    days = [31, 28, 31, 30, 31, 30, 31, 31, 30, 31, 30, 31]
+    start_m = 24 * sum(days[:k12])
+    hrs = 24 * days[k12]
+    avg = sum(series[start_m:start_m + hrs]) / hrs
+    st = start_m + (peak_day - 1) * 24
+    window = [series[(st + j) % 8760] for j in range(48)]
+    if max(window) > peak:
+        return None
+
+    def respond(q):          # q[0] = 0, q[1..48]; temperature change of the fluid at the end of each hour
+        out = [0.0]
+        for n in range(1, 49):
+            out.append(sum((q[j + 1] - q[j]) * kernel[n - j - 1] for j in range(n)) / two_pi_k + q[n] * rb)
+        return out
+    nom = respond([0.0] + [(w - avg) / peak * w for w in window])
+    pk = respond([0.0] + [peak - avg] * 48)
+    top = max(nom)
+    if top <= 0.0:
+        return 1.0e-6
+    pts = sorted(zip(pk, range(49)))
+    lo = next((i for i in range(len(pts) - 1) if pts[i][0] <= top <= pts[i + 1][0]), None)
+    if lo is None:
+        lo = 0 if top < pts[0][0] else len(pts) - 2
+    (x0, y0), (x1, y1) = pts[lo], pts[lo + 1]
+    if x1 == x0:
+        return None
+    return y0 + (top - x0) * (y1 - y0) / (x1 - x0)
+
+
 def oracle_profile(chk, which, p, o):
     """property oracles on a real HybridLoad built from an hourly profile; returns number of non-trivial checks"""
     if not o.get("ok"):
@@ -252,6 +286,22 @@ def oracle_profile(chk, which, p, o):
                     chk.violation("hybrid-profile", p, {"k": k, "hours": hour[max(0, k - 3):k + 2]}, "breakpoints strictly increasing (windows are disjoint and inside their months)")
                     return n
     elif which == "C07":
+        # every reported duration against its defining equation (first year: later years replicate, C08)
+        if "kernel" in o:
+            for k12 in range(12):
+                for (series, pk, day, dur, nm) in ((o["rej"], o["hourly_rej_peak"][k12], o["hourly_rej_peak_day"][k12], o["dcl"][k12 + 1], "rejection"),
+                                                   (o["ext"], o["hourly_ext_peak"][k12], o["hourly_ext_peak_day"][k12], o["dhl"][k12 + 1], "extraction")):
+                    if pk <= 0:
+                        continue
+                    want = expected_duration(series, k12, pk, day, o["kernel"], o["rb"], o["two_pi_k"])
+                    if want is None:
+                        continue
+                    n += 1
+                    if abs(dur - want) > 1e-6 * max(1.0, abs(want)):
+                        chk.violation("hybrid-profile", p, {"month": k12 + 1, "dir": nm, "duration": dur, "from_the_definition": want, "peak": pk, "peak_day_index": day},
+                                      "the duration is the time after which a constant load (peak - monthly average) changes the fluid temperature as much as the "
+                                      "peak-scaled two-day profile ending on the peak day does at its maximum")
+                        return n
         # expected pulses from the hourly profile itself
         for m in range(1, months + 1):
             k12 = (m - 1) % 12
